@@ -19,6 +19,9 @@ func zzStubMLKEMDecaps(sk *mlkem768.PrivateKey, ss, ct []byte) {
 
 //zz: prop=C01 tier=quick backend=bv use=mlkemuf,ladder,keccakuf timeout=300
 func ZZ_C01_xwing_decaps_binds_whole_ciphertext() {
+	if !zzSymbolic() {
+		zzModelOnly() // ML-KEM, X25519 and Keccak-p are uninterpreted here
+	}
 	var sk PrivateKey
 	zzFill("skx", &sk.x)
 	zzFill("pkx", &sk.xpk)
